@@ -164,6 +164,9 @@ pub enum Op {
     InvalidateIf { p: Pred },
     Advance { ns: u64 },
     Sync,
+    /// the `nth` call of a callback of the caller (site: 0 V::clone, 1 weigher, 2 predicate)
+    /// during the next operation panics
+    ArmFault { site: u8, nth: u32 },
 }
 
 impl Op {
@@ -179,6 +182,7 @@ impl Op {
             Op::InvalidateIf { p } => format!("invalidate_if {}", p.name()),
             Op::Advance { ns } => format!("advance {}", ns),
             Op::Sync => "sync".into(),
+            Op::ArmFault { site, nth } => format!("arm_fault {} {}", site, nth),
         }
     }
 
@@ -203,6 +207,7 @@ impl Op {
             },
             "advance" => Op::Advance { ns: num()? },
             "sync" => Op::Sync,
+            "arm_fault" => Op::ArmFault { site: num()? as u8, nth: num()? as u32 },
             _ => return None,
         })
     }
@@ -219,6 +224,7 @@ impl Op {
             Op::InvalidateIf { .. } => "invalidate_entries_if",
             Op::Advance { .. } => "advance",
             Op::Sync => "sync",
+            Op::ArmFault { .. } => "arm_fault",
         }
     }
 }
